@@ -46,6 +46,7 @@ REQUIRED_THEOREMS = [
     # theorems restated about it end to end
     "step_set", "dispGet_spec", "step_get", "step_upd", "step_clear", "step_asArray", "step_noattr", "createAttribute_good",
     "step_create", "step_delete", "step_cclear", "dispatchExpand_good", "grow_some", "step_grow",
+    "registerArray_spec2", "registerArray_newaxis", "registerArray_spec", "registerArray_bad_shape",
     "srcStep_bridge", "srcRunObs_bridge", "src_dense_refines", "src_sparse_refines", "src_sparse_dense_agree",
 ]
 TRUSTED = [
@@ -61,8 +62,8 @@ TRUSTED = [
     "(Props/C05Source.lean); [round 5] the sparse as_array too, and a source-level step machine `srcRun` (Lemmas/AttrSourceRun.lean: every "
     "operation of a script carried out by the translated definitions, the way the harness drives the library) is proved to give the "
     "observations and states of the hand model (srcStep_bridge / srcRunObs_bridge), so that dense_refines / sparse_refines / "
-    "sparse_dense_agree are stated about translated code end to end (Props/C05SourceRun.lean); register_array_as_attribute is "
-    "oracle-only",
+    "sparse_dense_agree are stated about translated code end to end (Props/C05SourceRun.lean); [round 6] register_array_as_attribute "
+    "(repaired) is translated too (caller array = a heap object with its dtype facts, `ArrIn`) and specified by registerArray_spec",
     "values are compared after widening to the attribute's type (True == 1 == 1.0 in Python); numpy view/copy rules are "
     "observed from outside (reads followed by in-place item assignment, also through read results kept alive across later "
     "writes / growth / clear, and through vectors the caller wrote)",
@@ -76,7 +77,8 @@ ASSUMPTIONS = [
     "strings shorter than 32 characters (dense dtype <U32), integers within int64, floats dyadic (exact in binary64/32)",
     "a scalar str is never offered to a vector attribute (Python would iterate its characters)",
 ]
-RULE = ("[round 5: family t=reg — register_array_as_attribute over an existing attribute / on a bare container, (n,) and (n,k) arrays, narrow "
+RULE = ("[round 6: family t=reg also offers arrays one row short / one row too many: refused is fine, ACCEPTED must still be a total map "
+        "aligned with the container] [round 5: family t=reg — register_array_as_attribute over an existing attribute / on a bare container, (n,) and (n,k) arrays, narrow "
         "dtypes (uint8 / int32 / float32), followed by ordinary operations (oracle-only, dense semantics)] [round 4: both storages must agree on accepting / refusing a custom default of another type] [round 3: several attributes (sparse and dense at once) on one container incl. delete / re-create under the same name "
         "(family t=multi); vector values offered as list / tuple / numpy array / Vec, numpy scalar components, numpy integer "
         "indices, `+=` of lists with repeated elements / tuples / sets] [round 2: plus reads kept alive and updated in place later (hold/muth), a[j] = a[i] (setfr), one caller vector written "
@@ -608,14 +610,18 @@ def _oracle_mode(case, dense):
                 origin = [None] * len(origin)
         elif kind == "reg":
             d = op[4]
-            if len(op[3]) != size or size == 0 or (d is not None and tok_type(d) != op[1]):
-                if not failed: return out        # a mis-shaped array / a default of another type was accepted: nothing to state
+            if size == 0 or (d is not None and tok_type(d) != op[1]):
+                if not failed: return out        # an empty container / a default of another type was accepted: nothing to state
+            elif len(op[3]) != size and failed:
+                pass                             # a mis-shaped array is refused: the container is as it was
             else:
+                # (round 6) a mis-shaped array that is ACCEPTED must still give a total map over the container: the rows it has, the
+                # default elsewhere, aligned with the container — checked by check_state below
                 if failed:
                     F("reg", f"raises({obs})", f"step {step}: register_array_as_attribute on a container of {size}: {op[:3]}"); return out
                 alive, ty, k = True, op[1], op[2]
                 dflt = [tok_canon(ty, d if d is not None else {"bool": "b:0", "int": "i:0", "float": "f:0", "complex": "c:0,0", "str": "s:"}[ty])] * k
-                ref = {i: [tok_canon(ty, t) for t in row] for i, row in enumerate(op[3])}       # every entry holds its row of the array
+                ref = {i: [tok_canon(ty, t) for t in row] for i, row in enumerate(op[3]) if i < size}       # every entry holds its row of the array
                 taint = set()
                 origin = [None] * len(origin)
         elif kind == "delete":
@@ -870,7 +876,9 @@ def _script_reg(rng, maxlen):
         # the rest of the script keeps writing values of the attribute it was generated for: use that signature
         for o in ops:
             if o[0] == "create": ty, k = (ty, k) if sig else (o[1], o[2]); break
-        rows = [[_scalar(rng, ty, numpy_ok=False) for _ in range(k)] for _ in range(size)]
+        nrows = size
+        if rng.random() < 0.15: nrows = max(1, size + rng.choice([-1, 1]))        # round 6: one row short / one row too many
+        rows = [[_scalar(rng, ty, numpy_ok=False) for _ in range(k)] for _ in range(nrows)]
         d = _scalar(rng, ty, numpy_ok=False) if rng.random() < 0.4 else None
         o = {}
         if k == 1 and rng.random() < 0.5: o["flat"] = True
@@ -1284,7 +1292,7 @@ SOURCE_MAP = {
     _D + "_BaseDataContainer.empty": _OOS_ABS, _D + "_BaseDataContainer.clear": _OOS_ABS, _D + "_BaseDataContainer.append": _OOS_ABS,
     _D + "_BaseDataContainer.attributes": "out-of-scope: key view of the attribute dict",
     _D + "_BaseDataContainer.create_attribute": "translated",     # createAttribute; createAttribute_bridge
-    _D + "_BaseDataContainer.register_array_as_attribute": "oracle-only",      # round 5: driven (family t=reg: over an existing name / on a bare container, 1-D and narrow-dtype arrays); two defects repaired
+    _D + "_BaseDataContainer.register_array_as_attribute": "translated",      # registerArray; registerArray_spec / _newaxis / _bad_shape (round 6); also driven by family t=reg
     _D + "_BaseDataContainer.delete_attribute": "translated",     # deleteAttribute; deleteAttribute_bridge
     _D + "_BaseDataContainer.has_attribute": "translated",        # hasAttribute; hasAttribute_len_bridge
     _D + "_BaseDataContainer.get_attribute": "translated",        # getAttribute; getAttribute_bridge
